@@ -975,7 +975,16 @@ pub fn batch_main<P: Prop>(p: &P, opts: &Options) -> i32 {
         match write_replay(&replay_dir, &rf) {
             Ok(path) => {
                 if first_of_class {
-                    if let Err(e) = replay_in_fresh_process(id, &path, &rf.class) {
+                    // a violation that is itself nondeterminism of the system under test (C19)
+                    // may need more than one attempt; anything else reproduces at once
+                    let mut last = Ok(());
+                    for _ in 0..4 {
+                        last = replay_in_fresh_process(id, &path, &rf.class);
+                        if last.is_ok() {
+                            break;
+                        }
+                    }
+                    if let Err(e) = last {
                         eprintln!("HARNESS-ERROR property={id}: {e}");
                         return 2;
                     }
